@@ -41,7 +41,8 @@ Record hs_view (isn : Z) (st : net) : Prop := mkHV {
              tcp_send_next_seq (net_sock st SB) = seq_add (s_local_seq_no (net_sock st SB)) 1);
   hv_synseq : forall p, In p (ep_sent (n_a st)) -> r_control (snd p) = CSyn -> r_seq_number (snd p) = isn;
   hv_sub : chan_sub st;
-  hv_rx : forall z, TcpRecvBase.rb_wf (s_rx_buffer (net_sock st z)) /\ 0 <= s_remote_win_shift (net_sock st z)
+  hv_rx : forall z, TcpRecvBase.rb_wf (s_rx_buffer (net_sock st z)) /\ 0 <= s_remote_win_shift (net_sock st z);
+  hv_mtu : forall z, 52 < cx_ip_mtu (ep_cx (net_get st z))
 }.
 
 Lemma hs_view_of_INV Sa Sb isn ga gb st :
@@ -95,6 +96,9 @@ Proof.
   - intros z. destruct z; unfold net_sock; cbn [net_get].
     + destruct Ea as (_ & _ & Hg & _). destruct (RT.ginv_wf _ _ _ _ Hg) as (W & _ & Sh). split; assumption.
     + destruct Eb as (_ & _ & Hg & _). destruct (RT.ginv_wf _ _ _ _ Hg) as (W & _ & Sh). split; assumption.
+  - intros z. destruct z; cbn [net_get].
+    + destruct Ea as (_ & (_ & (Hm & _)) & _). apply Hm.
+    + destruct Eb as (_ & (_ & (Hm & _)) & _). apply Hm.
 Qed.
 
 Definition INVo (isn : Z) (st : net) : Prop := exists Sa Sb ga gb, C.INV Sa None Sb None isn ga gb st.
@@ -183,7 +187,7 @@ Lemma pre_quiet st w e' :
   ep_cx e' = ep_cx (net_get st w) ->
   pre_hs (net_set st w e').
 Proof.
-  intros HP (Q1 & Q2 & Q3 & Q4 & Q5 & Q6 & Q7) Hnk Hws Hout Hcl Hwr Hcx.
+  intros HP (Q1 & Q2 & Q3 & Q4 & Q5 & Q6 & Q7 & _) Hnk Hws Hout Hcl Hwr Hcx.
   assert (Gw : net_get (net_set st w e') w = e') by apply net_get_set_same.
   assert (Go : net_get (net_set st w e') (side_other w) = net_get st (side_other w)) by apply net_get_set_other.
   assert (Ec : forall z, chan_to (net_set st w e') z = chan_to st z).
@@ -277,7 +281,8 @@ Proof. rewrite TcpRecvBase.seq_add_as_norm. apply TcpRecvBase.seq_norm_idem. Qed
 Lemma hs_A_synsent_segment st q e' :
   NI st -> opts_ok st -> hs_view isn st -> pre_hs st -> s_state (sa st) = SynSent ->
   In q (chan_to st SA) ->
-  ep_step (n_a st) (EvSegment (fst q) (wire_parse (snd q))) = Ok e' -> pre_hs (net_set st SA e').
+  ep_step (n_a st) (EvSegment (fst q) (wire_parse (snd q))) = Ok e' ->
+  pre_hs (net_set st SA e') /\ s_state (ep_sock e') = Established.
 Proof.
   intros HN Ho HV HP Hst Hin He.
   destruct (ep_step_spec _ _ _ He) as (s' & out & tags & Hs & Hk & Hcx & Hout & _ & Hwr & _ & _ & Hcl).
@@ -305,6 +310,7 @@ Proof.
     rewrite (TcpRecvBase.seq_add_as_norm (s_local_seq_no (ep_sock (n_b st))) 1), TcpRecvBase.seq_add_norm.
     f_equal. lia. }
   cbn [wire_out opt_list] in Hout. rewrite app_nil_r in Hout.
+  split; [|rewrite Hk; exact P1].
   constructor; unfold net_sock, chan_to; cbn [net_set net_get side_other n_a n_b].
   - right. rewrite Hk. split; [exact P1 | exact Hsb].
   - intros z. destruct z; cbn [net_get n_a n_b];
@@ -469,7 +475,9 @@ Qed.
 Lemma hs_B_listen_segment st p e' :
   NI st -> opts_ok st -> pre_hs st -> s_state (sb st) = Listen ->
   In p (chan_to st SB) ->
-  ep_step (n_b st) (EvSegment (fst p) (wire_parse (snd p))) = Ok e' -> pre_hs (net_set st SB e').
+  ep_step (n_b st) (EvSegment (fst p) (wire_parse (snd p))) = Ok e' ->
+  pre_hs (net_set st SB e') /\ s_state (ep_sock e') = SynReceived /\
+  s_remote_last_seq (ep_sock e') = s_local_seq_no (ep_sock e').
 Proof.
   intros HN Ho HP Hst Hin He.
   destruct (ep_step_spec _ _ _ He) as (s' & out & tags & Hs & Hk & Hcx & Hout & _ & Hwr & _ & _ & Hcl).
@@ -503,6 +511,7 @@ Proof.
   assert (Htup : s_tuple s' = Some (mirror tA)).
   { rewrite P2. unfold wire_parse. cbn [r_src_port r_dst_port]. rewrite D1, D2, D3, D4. reflexivity. }
   cbn [wire_out opt_list] in Hout. rewrite app_nil_r in Hout.
+  split; [|rewrite Hk; split; [exact P1 | rewrite P3, P4; reflexivity]].
   constructor; unfold net_sock, chan_to; cbn [net_set net_get side_other n_a n_b].
   - left. rewrite Hk. split; [exact Hsa | right; exact P1].
   - intros z. destruct z; cbn [net_get n_a n_b];
@@ -743,7 +752,7 @@ Proof.
     destruct (ph_phase st HP) as [(Hsa & _) | (Hsa & _)].
     + (* SYN-SENT *)
       left. destruct ev as [to i | to i | to i | d | z i1 t1 | z ok | z data | z n | z]; cbn [sock_event script_ev] in *; try contradiction.
-      * destruct Hse as (_ & q & Hn & ->). exact (hs_A_synsent_segment st q e' HN Ho HV HP Hsa (nth_error_In _ _ Hn) He).
+      * destruct Hse as (_ & q & Hn & ->). exact (proj1 (hs_A_synsent_segment st q e' HN Ho HV HP Hsa (nth_error_In _ _ Hn) He)).
       * destruct Hse as (_ & ->). exact (hs_A_synsent_dispatch st ok e' HN Ho HP Hsa He).
       * destruct Hse as (_ & ->). apply (hs_quiet st SA (EvSend data)); try assumption.
         -- left. exists data. auto.
@@ -759,7 +768,7 @@ Proof.
     destruct ev as [to i | to i | to i | d | z i1 t1 | z ok | z data | z n | z]; cbn [sock_event script_ev] in *; try contradiction.
     + destruct Hse as (_ & p & Hn & ->). pose proof (nth_error_In _ _ Hn) as Hin.
       destruct Hsb as [Hsb | Hsb].
-      * left. exact (hs_B_listen_segment st p e' HN Ho HP Hsb Hin He).
+      * left. exact (proj1 (hs_B_listen_segment st p e' HN Ho HP Hsb Hin He)).
       * exact (hs_B_synrecv_segment st p e' HN Ho HV HP Hsb Hin He HV' HI').
     + destruct Hse as (_ & ->). left. destruct Hsb as [Hsb | Hsb].
       * exact (hs_B_listen_dispatch st ok e' HP Hsb He).
